@@ -81,6 +81,7 @@ pub(crate) fn extend_node_properties_from_store(
     properties_root: u64,
     node: InternalNodeId,
     props: &mut BTreeMap<String, PropertyValue>,
+    skip: &std::collections::BTreeSet<String>,
 ) -> Option<()> {
     if properties_root == 0 {
         return Some(());
@@ -109,7 +110,12 @@ pub(crate) fn extend_node_properties_from_store(
             let key_len = u32::from_be_bytes(key[5..9].try_into().unwrap()) as usize;
             let key_name = String::from_utf8(key[9..9 + key_len].to_vec()).ok()?;
 
-            if !props.contains_key(&key_name) {
+            // Entries with equal keys are stored newest first: only the first one counts.
+            // Keys removed by a newer run (`skip`) stay removed.
+            if !props.contains_key(&key_name)
+                && !skip.contains(&key_name)
+                && !to_fetch.iter().any(|(k, _): &(String, u64)| *k == key_name)
+            {
                 to_fetch.push((key_name, cursor.payload().ok()?));
             }
 
@@ -132,6 +138,7 @@ pub(crate) fn extend_edge_properties_from_store(
     properties_root: u64,
     edge: nervusdb_api::EdgeKey,
     props: &mut BTreeMap<String, PropertyValue>,
+    skip: &std::collections::BTreeSet<String>,
 ) -> Option<()> {
     if properties_root == 0 {
         return Some(());
@@ -162,7 +169,12 @@ pub(crate) fn extend_edge_properties_from_store(
             let key_len = u32::from_be_bytes(key[13..17].try_into().unwrap()) as usize;
             let key_name = String::from_utf8(key[17..17 + key_len].to_vec()).ok()?;
 
-            if !props.contains_key(&key_name) {
+            // Entries with equal keys are stored newest first: only the first one counts.
+            // Keys removed by a newer run (`skip`) stay removed.
+            if !props.contains_key(&key_name)
+                && !skip.contains(&key_name)
+                && !to_fetch.iter().any(|(k, _): &(String, u64)| *k == key_name)
+            {
                 to_fetch.push((key_name, cursor.payload().ok()?));
             }
 
@@ -266,7 +278,7 @@ mod tests {
 
         let root = tree.root().as_u64();
         let mut props = BTreeMap::from([("a".to_string(), PropertyValue::Int(1))]);
-        extend_node_properties_from_store(&pager, root, 1, &mut props).unwrap();
+        extend_node_properties_from_store(&pager, root, 1, &mut props, &Default::default()).unwrap();
 
         assert_eq!(props.get("a"), Some(&PropertyValue::Int(1)));
         assert_eq!(
@@ -317,7 +329,7 @@ mod tests {
 
         let root = tree.root().as_u64();
         let mut props = BTreeMap::from([("a".to_string(), PropertyValue::Int(1))]);
-        extend_edge_properties_from_store(&pager, root, edge, &mut props).unwrap();
+        extend_edge_properties_from_store(&pager, root, edge, &mut props, &Default::default()).unwrap();
 
         assert_eq!(props.get("a"), Some(&PropertyValue::Int(1)));
         assert_eq!(
